@@ -28,6 +28,7 @@ ASSUMPTIONS = ['an abandoned iterator may be finalised at any later moment (imme
 F = refws.enc_frame
 Z_EXT = {'extra': [('Sec-WebSocket-Extensions', 'permessage-deflate')]}
 Z_EXT9 = {'extra': [('Sec-WebSocket-Extensions', 'permessage-deflate; client_max_window_bits=9; server_max_window_bits=10')]}
+Z_NCT = {'extra': [('Sec-WebSocket-Extensions', 'permessage-deflate; server_no_context_takeover; client_no_context_takeover')]}
 PROXIES = {}
 
 
@@ -82,6 +83,10 @@ def a_histories(z):
                                              after=[['send_binary', b'zz'], ['close']])
     A['eof-mid-payload-then-app-sends'] = dict(steps=[('raw', F(1, b'hello world')[:6]), ('eof',)],
                                               after=[['send_text', 'late'], ['send_pong', b''], ['close', 4000, 'late']])
+    # the object has never been connected, but the application has already called close() / send on it
+    # (a stop() racing a start()): the first connect() starts from a clean slate like every other
+    A['never-connected-then-app-close'] = dict(noconnect=True, steps=[], after=[['close']])
+    A['never-connected-then-app-calls'] = dict(noconnect=True, steps=[], after=[['send_text', 'x'], ['close', 1001, 'early'], ['send_ping', b'']])
     A['proxy-200-then-eof'] = dict(proxy_reply=b'HTTP/1.1 200 Connection established\r\n\r\n', steps=[('raw', F(1, b'via proxy')), ('eof',)])
     A['proxy-503'] = dict(proxy_reply=b'HTTP/1.1 503 Service Unavailable\r\n\r\n', steps=[])
     A['proxy-half-reply-eof'] = dict(proxy_reply=b'HTTP/1.1 200 Connection est', steps=[])
@@ -99,6 +104,12 @@ def a_histories(z):
         A['z-window9-context'] = dict(hs=Z_EXT9, steps=[('raw', F(1, b'go')), ('await_frames', 2), ('eof',)],
                                       policy={'text': [['send_binary', rb], ['send_binary', rb]]})
         A['z-garbage'] = dict(steps=[('raw', F(1, m1, rsv=4) + F(2, b'\xff\xff\xff\xff', rsv=4)), ('eof',)])
+        # both sides reset their context after every message: "nothing a new connection could inherit" - except a zlib
+        # object that the previous connection left in its error state
+        A['z-nct-garbage'] = dict(hs=Z_NCT, steps=[('raw', F(1, deflate_peer.Peer(15, 15, True, True).compress(b'fine fine fine'), rsv=4) +
+                                                   F(2, b'\xff\xff\xff\xff', rsv=4)), ('eof',)])
+        A['z-nct-mid-message-eof'] = dict(hs=Z_NCT, steps=[('raw', F(1, m1[:9], rsv=4, fin=0)), ('eof',)],
+                                          policy={'poll#0': [['send_text', 'nct nct nct nct']]})
     for name, a in A.items():
         a.setdefault('hs', hs if 'hsraw' not in a else None)
         if z and a.get('hs') is not None and 'status' not in a['hs'] and 'accept' not in a['hs'] and 'pad_to' not in a['hs'] \
@@ -135,6 +146,10 @@ def b_histories(z):
         rb = random.Random(98).randbytes(700)
         B['z-window9-far-repeat'] = dict(hs=Z_EXT9, steps=[('raw', F(1, b'go')), ('await_frames', 2), ('eof',)],
                                          policy={'text': [['send_binary', rb], ['send_binary', rb]]})
+        pn = deflate_peer.Peer(15, 15, True, True)
+        B['z-nct-exchange'] = dict(hs=Z_NCT, steps=[('raw', F(1, pn.compress(b'hello hello hello'), rsv=4) + F(1, pn.compress(b'world'), rsv=4)),
+                                                    ('await_frames', 1), ('eof',)],
+                                   policy={'text#0': [['send_text', 'reply reply reply reply']]})
         B['z-exchange'] = dict(steps=[('raw', F(1, m1, rsv=4) + F(1, m2[:7], rsv=4, fin=0) + F(0, m2[7:])), ('await_frames', 3), ('eof',)],
                                policy={'text': [['send_text', 'client context client context ' * 6]],
                                        'poll#0': [['send_binary', b'\x00' * 500]]})
@@ -215,6 +230,16 @@ def run_one(ws, h, z, seg=None, abandon=None, keep_open=False, stale=None, via_i
     spec = world_for(h, z, seg)
     w = H.World(lambda _i: simnet.ScriptServer(spec['steps']), gai_error=spec['gai'], horizon=spec['horizon'],
                 stop_at=spec['horizon'] or None, cuts=spec['cuts'], budget=200000, addrs=spec['addrs'])
+    if h.get('noconnect'):
+        # no connection at all: only the application's calls on the (new) object
+        run = H.Run()
+        run.world = w
+        run.end = 'stop'
+        with simnet.Installed(w):
+            run.ws = ws if ws is not None else env.WebSocket('ws://example.com/', compress=bool(z), proxies=PROXIES)
+            for act in h.get('after', ()):
+                H.app_call(run, run.ws, act[0], *act[1:])
+        return run, w
     policy = H.TablePolicy(h.get('policy'))
     pre_iter = None
     if stale is not None:
